@@ -80,6 +80,9 @@ class Exec:
         self.stages = []        # [(c poly, row dict sym->poly)]
         self.ynew = None
         self.cont = None
+        self.bad = []           # structural violations: a stage evaluated at a time that is not (start of this step) + c*h
+        self.carried = set()    # scalars assigned inside the main loop: at a use they hold a value from an earlier step
+        self.in_loop = False
     # -- expression parser over tokens[i:j]
     def expr(self, toks):
         self.t = toks; self.p = 0
@@ -196,8 +199,18 @@ def run_solve(ex, toks, lo, hi, fname="f"):
     ex.scal["h"] = S(H)
     ex.scal["x"] = S(P(0))
     ex.buf["y"] = {None: V({"Y": P(1)})}
-    for st in statements(toks, lo, hi):
+    sts = list(statements(toks, lo, hi))
+    for n_st, st in enumerate(sts):
         txt = [t.text for t in st]
+        if not ex.in_loop and txt[-1] == "loop" and len(txt) <= 3:
+            ex.in_loop = True
+            for later in sts[n_st + 1:]:
+                lt = [t.text for t in later]
+                if len(lt) > 2 and later[0].kind == "id" and lt[1] in ("=", "+=", "-=", "*=", "/=") and lt[0] not in ("x", "h"):
+                    ex.carried.add(lt[0])
+            for name in ex.carried:
+                if name in ex.scal: ex.scal[name] = None
+            continue
         try:
             # the interpolant is built: snapshot of cont
             if "StepInterpolant" in txt and "new" in txt and ex.cont is None and "cont" in ex.buf and len(ex.stages) > 1:
@@ -207,6 +220,10 @@ def run_solve(ex, toks, lo, hi, fname="f"):
                 c = match_close(st, 3)
                 args = core.split_commas(st[4:c])
                 xv = ex.expr(args[0])
+                if ex.in_loop:
+                    used = [t.text for t in args[0] if t.kind == "id" and t.text in ex.carried]
+                    if used:
+                        ex.bad.append("the stage written to `%s` is evaluated at `%s`, which depends on `%s`: a value assigned later in the loop body, i.e. carried over from the previous step, so the abscissa is not (start of this step) + c*h" % (args[2][-1].text, " ".join(t.text for t in args[0]), used[0]))
                 src = args[1][1].text if args[1][0].text == "&" else None
                 dst = args[2][2].text if [t.text for t in args[2][:2]] == ["&", "mut"] else None
                 row = ex.read(src, 0) if src else None
@@ -280,6 +297,7 @@ def run_solve(ex, toks, lo, hi, fname="f"):
                                 ex.ynew = rhs[1]
                         continue
                 elif txt[1] in ("=", "+=", "-=", "*=", "/="):
+                    if txt[1] == "=": ex.carried.discard(name)      # from here on the name holds a value of this iteration
                     if name == "h": continue
                     try:
                         rhs = ex.expr(st[2:]) if not ({"if", "match"} & set(txt)) else None
@@ -336,13 +354,14 @@ def analyse(repo, path, impl):
     ex = Exec(consts)
     lo, hi = core.body_range(toks, fns["solve"][0], fns["solve"][1])
     run_solve(ex, toks, lo + 1, hi)
+    if ex.bad: return {"stages": ex.stages, "ynew": ex.ynew or {}, "cont": ex.cont or {}, "u": {}, "consts": consts, "bad": ex.bad}
     if ex.ynew is None: raise Unsupported("the new state was not found (no `y.copy_from_slice(&..)` with a stage combination)")
     if ex.cont is None: raise Unsupported("no interpolant construction found")
     ex2 = Exec(consts)
     lo, hi = core.body_range(toks, fns["interpolate"][0], fns["interpolate"][1])
     u = run_interpolate(ex2, toks, lo + 1, hi, ex.cont)
     if u is None or u[0] != 'v': raise Unsupported("interpolate: the assigned expression is not a combination of cont rows")
-    return {"stages": ex.stages, "ynew": ex.ynew, "cont": ex.cont, "u": u[1], "consts": consts}
+    return {"stages": ex.stages, "ynew": ex.ynew, "cont": ex.cont, "u": u[1], "consts": consts, "bad": ex.bad}
 
 if __name__ == "__main__":
     m = sys.argv[1]
